@@ -546,12 +546,12 @@ def run(run):
         run.require(F.unknown == 0, 'unknown AST nodes')
         E = effects.Effects(F)
         run.count('fact units')
-        capacity_rules(run, F, E)
-        link_rules(run, F, E)
+        run.guard('capacity rules', capacity_rules, run, F, E)
+        run.guard('link rules', link_rules, run, F, E)
         from rules import c09
-        c09.reset_completeness(run, F, E, 'C10.g')
-        iterator_rules(run, F, E)
-        g2(run, F, E)
+        run.guard('reset completeness', c09.reset_completeness, run, F, E, 'C10.g')
+        run.guard('iterator rules', iterator_rules, run, F, E)
+        run.guard('g2', g2, run, F, E)
         facts.drop(F)
         cfgmod.clear_cache()
     run.floor('C10.a', 40)
